@@ -1,1 +1,432 @@
-fn main() {}
+//! Conformance driver for bytestring::ByteString (C20), public API only.
+//!
+//! `vbytestring vectors --schedules F --trace T [--seed S] [--pairs K] [--trace-sample N]`
+//!
+//! F: ndjson, one vector per line as printed by TLC from spec/bytestring/Utf8.tla:
+//!    `{"s":[bytes..],"v":valid,"b":[char boundary indices]}`  (b is empty when v is false).
+//! The spec's verdict is the oracle:
+//!  * every fallible constructor accepts iff `v` and preserves the bytes;
+//!  * on every value built from a valid vector (all constructors, fallible and infallible)
+//!    `split_at(mid)`, mid in 0..=len+1, panics exactly when mid is not in `b`, and otherwise returns
+//!    the two byte halves, both of which the spec's table calls valid; `slice_ref` over all
+//!    sub-slices between boundaries returns exactly those bytes;
+//!  * differential against std (not modelled): Deref/AsRef/Borrow/Display/Debug/String conversion/
+//!    Hash on every valid vector, Eq/Ord/PartialOrd/Hash-consistency on seeded pairs of valid vectors.
+//! `std::str::from_utf8` / `str::split_at` are additionally compared with the spec; a disagreement
+//! between the spec and std is reported as `oracle_disagreements` (a tool problem, not a verdict).
+//!
+//! T: ndjson of observations for TLC (`Utf8Trace.tla`): for every valid vector, every mismatching vector
+//! and a seeded sample of the others: `{"ev":"vec","i":idx,"s":[..],"acc":all ctors accepted,
+//! "rej":all ctors rejected,"split":[mids at which split_at returned on every value]}` each preceded
+//! by a reset record.
+//! Last stdout line: the standard JSON summary.
+
+use std::{
+    borrow::Borrow,
+    collections::{hash_map::DefaultHasher, HashMap, HashSet},
+    convert::TryFrom,
+    hash::{Hash, Hasher},
+};
+
+use bytes::{Bytes, BytesMut};
+use bytestring::ByteString;
+use vcore::{arg, catch, json, quiet_panics, read_ndjson, Trace, Value};
+
+struct Rng(u64);
+impl Rng {
+    fn next(&mut self) -> u64 {
+        self.0 ^= self.0 << 13;
+        self.0 ^= self.0 >> 7;
+        self.0 ^= self.0 << 17;
+        self.0
+    }
+    fn below(&mut self, n: usize) -> usize {
+        (self.next() % n as u64) as usize
+    }
+}
+
+struct V {
+    s: Vec<u8>,
+    v: bool,
+    b: Vec<usize>,
+}
+
+fn key(s: &[u8]) -> u128 {
+    let mut k: u128 = s.len() as u128;
+    for &x in s {
+        k = (k << 8) | x as u128;
+    }
+    k
+}
+
+struct Report {
+    steps: u64,
+    mismatches: u64,
+    first: Vec<Value>,
+    flagged_runs: HashSet<usize>,
+    oracle_disagreements: u64,
+    oracle_first: Vec<Value>,
+}
+
+impl Report {
+    fn mism(&mut self, run: usize, step: String, expected: Value, observed: Value) {
+        self.mismatches += 1;
+        self.flagged_runs.insert(run);
+        if self.first.len() < 20 {
+            self.first
+                .push(json!({"run": run, "step": step, "expected": expected, "observed": observed}));
+        }
+    }
+    fn check(&mut self, run: usize, step: &str, ok: bool, expected: Value, observed: Value) {
+        self.steps += 1;
+        if !ok {
+            self.mism(run, step.to_string(), expected, observed);
+        }
+    }
+    fn oracle(&mut self, run: usize, what: &str, spec: Value, std_: Value) {
+        self.oracle_disagreements += 1;
+        if self.oracle_first.len() < 10 {
+            self.oracle_first
+                .push(json!({"run": run, "what": what, "spec": spec, "std": std_}));
+        }
+    }
+}
+
+macro_rules! arrays {
+    ($s:expr, $out:expr, $($n:literal)+) => {
+        match $s.len() {
+            $( $n => {
+                let mut a = [0u8; $n];
+                a.copy_from_slice($s);
+                $out.push(("array", ByteString::try_from(a).ok()));
+                $out.push(("array_ref", ByteString::try_from(&a).ok()));
+            } )+
+            _ => {}
+        }
+    };
+}
+
+/// every fallible constructor of the public API applied to the same bytes
+fn fallible(s: &[u8]) -> Vec<(&'static str, Option<ByteString>)> {
+    let mut out: Vec<(&'static str, Option<ByteString>)> = Vec::with_capacity(9);
+    out.push(("slice", ByteString::try_from(s).ok()));
+    out.push(("vec", ByteString::try_from(s.to_vec()).ok()));
+    out.push(("bytes", ByteString::try_from(Bytes::copy_from_slice(s)).ok()));
+    out.push(("bytes_from_vec", ByteString::try_from(Bytes::from(s.to_vec())).ok()));
+    // a Bytes that is a window into a larger shared buffer with invalid neighbours
+    let mut big = Vec::with_capacity(s.len() + 2);
+    big.push(0xFF);
+    big.extend_from_slice(s);
+    big.push(0x80);
+    let win = Bytes::from(big).slice(1..1 + s.len());
+    out.push(("bytes_window", ByteString::try_from(win).ok()));
+    out.push(("bytesmut", ByteString::try_from(BytesMut::from(s)).ok()));
+    arrays!(s, out, 0 1 2 3 4 5 6 7 8);
+    out
+}
+
+fn hash_of<T: Hash + ?Sized>(t: &T) -> u64 {
+    let mut h = DefaultHasher::new();
+    t.hash(&mut h);
+    h.finish()
+}
+
+fn main() {
+    quiet_panics();
+    let mode = std::env::args().nth(1).unwrap_or_default();
+    if mode != "vectors" {
+        eprintln!("usage: vbytestring vectors --schedules F --trace T [--seed S] [--pairs K] [--trace-sample N]");
+        std::process::exit(2);
+    }
+    let sfile = arg("--schedules").expect("--schedules");
+    let tfile = arg("--trace").expect("--trace");
+    let seed: u64 = arg("--seed").and_then(|s| s.parse().ok()).unwrap_or(1);
+    let pairs_k: usize = arg("--pairs").and_then(|s| s.parse().ok()).unwrap_or(16);
+    let tsample: usize = arg("--trace-sample").and_then(|s| s.parse().ok()).unwrap_or(2000);
+    let mut rng = Rng(seed.wrapping_mul(0x9E3779B97F4A7C15) | 1);
+
+    let raw = read_ndjson(&sfile);
+    let vecs: Vec<V> = raw
+        .iter()
+        .map(|r| V {
+            s: r["s"].as_array().unwrap().iter().map(|x| x.as_u64().unwrap() as u8).collect(),
+            v: r["v"].as_bool().unwrap(),
+            b: r["b"].as_array().unwrap().iter().map(|x| x.as_u64().unwrap() as usize).collect(),
+        })
+        .collect();
+    drop(raw);
+    // the spec's table: which byte strings it knows, and which of them it calls valid
+    let mut known: HashSet<u128> = HashSet::with_capacity(vecs.len());
+    let mut valid: HashSet<u128> = HashSet::new();
+    for v in &vecs {
+        known.insert(key(&v.s));
+        if v.v {
+            valid.insert(key(&v.s));
+        }
+    }
+    let spec_says = |bytes: &[u8]| -> Option<bool> {
+        let k = key(bytes);
+        if known.contains(&k) {
+            Some(valid.contains(&k))
+        } else {
+            None
+        }
+    };
+
+    let mut rep = Report {
+        steps: 0,
+        mismatches: 0,
+        first: vec![],
+        flagged_runs: HashSet::new(),
+        oracle_disagreements: 0,
+        oracle_first: vec![],
+    };
+    let mut trace = Trace::create(&tfile);
+    let n = vecs.len();
+    let sample_p = if n == 0 { 0 } else { tsample.saturating_mul(1 << 16) / n.max(1) };
+    let mut n_valid = 0u64;
+    let mut n_split_calls = 0u64;
+    let mut n_split_panics = 0u64;
+    let mut n_slice_refs = 0u64;
+    let mut n_foreign_panics = 0u64;
+    let mut n_table_miss = 0u64;
+    let mut n_accepts = 0u64;
+    let mut n_rejects = 0u64;
+    let mut n_multibyte_valid = 0u64;
+    let mut traced = 0u64;
+    let mut valid_idx: Vec<usize> = vec![];
+
+    for (i, v) in vecs.iter().enumerate() {
+        let s = &v.s[..];
+        let before = rep.mismatches;
+        let std_ok = std::str::from_utf8(s).is_ok();
+        if std_ok != v.v {
+            rep.oracle(i, "from_utf8", json!(v.v), json!(std_ok));
+        }
+        // ---- fallible constructors: accept iff the spec calls the bytes valid
+        let built = fallible(s);
+        let mut all_acc = true;
+        let mut all_rej = true;
+        let mut values: Vec<(&'static str, ByteString)> = Vec::new();
+        for (name, r) in built {
+            match r {
+                Some(bs) => {
+                    all_rej = false;
+                    n_accepts += 1;
+                    rep.check(i, &format!("ctor:{name}"), v.v, json!("reject"), json!("accept"));
+                    let same = bs.as_bytes()[..] == *s;
+                    rep.check(i, &format!("ctor:{name}:bytes"), same, json!(s), json!(bs.as_bytes()[..]));
+                    if v.v {
+                        values.push((name, bs));
+                    }
+                }
+                None => {
+                    all_acc = false;
+                    n_rejects += 1;
+                    rep.check(i, &format!("ctor:{name}"), !v.v, json!("accept"), json!("reject"));
+                }
+            }
+        }
+        let mut split_ok_everywhere: Vec<usize> = vec![];
+        if v.v && std_ok {
+            n_valid += 1;
+            valid_idx.push(i);
+            if s.iter().any(|b| *b >= 0x80) {
+                n_multibyte_valid += 1;
+            }
+            let st: &str = std::str::from_utf8(s).unwrap();
+            // ---- infallible constructors
+            values.push(("from_str", ByteString::from(st)));
+            values.push(("from_string", ByteString::from(st.to_owned())));
+            values.push(("from_box_str", ByteString::from(st.to_owned().into_boxed_str())));
+            let leaked: &'static str = Box::leak(st.to_owned().into_boxed_str());
+            values.push(("from_static", ByteString::from_static(leaked)));
+            if s.is_empty() {
+                values.push(("new", ByteString::new()));
+                values.push(("default", ByteString::default()));
+            }
+            let c = values[0].1.clone();
+            values.push(("clone", c));
+
+            let len = s.len();
+            let mut split_ok_count = vec![0usize; len + 2];
+            let nvalues = values.len();
+            for (name, bs) in &values {
+                let same = bs.as_bytes()[..] == *s;
+                rep.check(i, &format!("{name}:bytes"), same, json!(s), json!(bs.as_bytes()[..]));
+                if !same {
+                    continue; // Deref on bytes that are not the valid input is not safe to exercise
+                }
+                // ---- str parity (differential, std is the oracle)
+                let d: &str = bs;
+                rep.check(i, &format!("{name}:deref"), d == st, json!(st), json!(d));
+                let ar: &str = bs.as_ref();
+                let ab: &[u8] = bs.as_ref();
+                let bo: &str = bs.borrow();
+                rep.check(i, &format!("{name}:as_ref"), ar == st && ab == s && bo == st, json!(st), json!(ar));
+                let disp = format!("{}", bs);
+                rep.check(i, &format!("{name}:display"), disp == st, json!(st), json!(disp));
+                let dbg = format!("{:?}", bs);
+                rep.check(i, &format!("{name}:debug"), dbg == format!("{:?}", st), json!(format!("{:?}", st)), json!(dbg));
+                let to_s: String = String::from(bs.clone());
+                rep.check(i, &format!("{name}:into_string"), to_s == st, json!(st), json!(to_s));
+                rep.check(i, &format!("{name}:into_bytes"), bs.clone().into_bytes()[..] == *s, json!(s), json!("differs"));
+                rep.check(i, &format!("{name}:hash"), hash_of(bs) == hash_of(st), json!(hash_of(st)), json!(hash_of(bs)));
+                rep.check(i, &format!("{name}:eq_str"), *bs == *st && *bs == st.to_owned() && bs == &st,
+                          json!(true), json!(false));
+                rep.check(i, &format!("{name}:len"), bs.len() == st.len() && bs.is_empty() == st.is_empty()
+                          && bs.chars().count() == st.chars().count(), json!(st.len()), json!(bs.len()));
+
+                // ---- split_at: panics exactly off the spec's boundaries
+                for mid in 0..=len + 1 {
+                    let expect_ok = v.b.contains(&mid);
+                    let std_split_ok = catch(|| {
+                        let _ = st.split_at(mid);
+                    })
+                    .is_ok();
+                    if std_split_ok != expect_ok {
+                        rep.oracle(i, &format!("str::split_at({mid})"), json!(expect_ok), json!(std_split_ok));
+                    }
+                    n_split_calls += 1;
+                    match catch(|| bs.split_at(mid)) {
+                        Ok((a, b)) => {
+                            split_ok_count[mid] += 1;
+                            rep.check(i, &format!("split_at:{name}:{mid}"), expect_ok, json!("panic"),
+                                      json!({"returned": [a.as_bytes()[..], b.as_bytes()[..]]}));
+                            if mid <= len {
+                                let halves = a.as_bytes()[..] == s[..mid] && b.as_bytes()[..] == s[mid..];
+                                rep.check(i, &format!("split_at:{name}:{mid}:halves"), halves,
+                                          json!([s[..mid], s[mid..]]), json!([a.as_bytes()[..], b.as_bytes()[..]]));
+                            }
+                            for (h, part) in [("left", &a), ("right", &b)] {
+                                match spec_says(&part.as_bytes()[..]) {
+                                    Some(ok) => rep.check(i, &format!("split_at:{name}:{mid}:{h}_valid"), ok,
+                                                          json!("valid UTF-8"), json!(part.as_bytes()[..])),
+                                    None => n_table_miss += 1,
+                                }
+                            }
+                        }
+                        Err(msg) => {
+                            n_split_panics += 1;
+                            rep.check(i, &format!("split_at:{name}:{mid}"), !expect_ok, json!("returns"),
+                                      json!({"panic": msg}));
+                        }
+                    }
+                }
+                // ---- slice_ref over every sub-slice between boundaries
+                for (x, &lo) in v.b.iter().enumerate() {
+                    for &hi in &v.b[x..] {
+                        if lo > hi || hi > len {
+                            continue;
+                        }
+                        let whole: &str = bs;
+                        let sub = &whole[lo..hi];
+                        n_slice_refs += 1;
+                        match catch(|| bs.slice_ref(sub)) {
+                            Ok(r) => {
+                                rep.check(i, &format!("slice_ref:{name}:{lo}..{hi}"), r.as_bytes()[..] == s[lo..hi],
+                                          json!(s[lo..hi]), json!(r.as_bytes()[..]));
+                                if let Some(ok) = spec_says(&r.as_bytes()[..]) {
+                                    rep.check(i, &format!("slice_ref:{name}:{lo}..{hi}:valid"), ok,
+                                              json!("valid UTF-8"), json!(r.as_bytes()[..]));
+                                }
+                            }
+                            Err(msg) => rep.check(i, &format!("slice_ref:{name}:{lo}..{hi}"), false,
+                                                  json!(s[lo..hi]), json!({"panic": msg})),
+                        }
+                    }
+                }
+            }
+            // slice_ref with a subset from another buffer: documented to panic; whatever it returns
+            // must still be valid UTF-8 (the property)
+            if !s.is_empty() {
+                let other = st.to_owned();
+                let bs = &values[0].1;
+                match catch(|| bs.slice_ref(&other)) {
+                    Ok(r) => {
+                        let ok = spec_says(&r.as_bytes()[..]).unwrap_or_else(|| std::str::from_utf8(&r.as_bytes()[..]).is_ok());
+                        rep.check(i, "slice_ref:foreign:valid", ok, json!("valid UTF-8"), json!(r.as_bytes()[..]));
+                    }
+                    Err(_) => n_foreign_panics += 1,
+                }
+            }
+            split_ok_everywhere = (0..=len + 1).filter(|m| split_ok_count[*m] == nvalues).collect();
+            // a mid at which only some values returned is already a mismatch above
+        }
+        // ---- observation record for TLC
+        let flagged = rep.mismatches > before;
+        if v.v || flagged || (rng.next() & 0xFFFF) < sample_p as u64 {
+            trace.emit(&json!({"ev": "reset", "i": i}));
+            trace.emit(&json!({"ev": "vec", "i": i, "s": s, "acc": all_acc, "rej": all_rej, "split": split_ok_everywhere}));
+            traced += 1;
+        }
+    }
+
+    // ---- pairs of valid vectors: Eq / Ord / PartialOrd / Hash consistency against str
+    let mut n_pairs = 0u64;
+    let nv = valid_idx.len();
+    let all_pairs = nv <= 64;
+    for (pos, &ia) in valid_idx.iter().enumerate() {
+        let sa = std::str::from_utf8(&vecs[ia].s).unwrap();
+        let a = match ByteString::try_from(&vecs[ia].s[..]) {
+            Ok(a) => a,
+            Err(_) => continue,
+        };
+        let mut partners: Vec<usize> = vec![];
+        if all_pairs {
+            partners.extend(0..nv);
+        } else {
+            partners.push(pos);
+            partners.push((pos + 1) % nv);
+            for _ in 0..pairs_k {
+                partners.push(rng.below(nv));
+            }
+        }
+        for pb in partners {
+            let ib = valid_idx[pb];
+            let sb = std::str::from_utf8(&vecs[ib].s).unwrap();
+            let b = match ByteString::try_from(vecs[ib].s.clone()) {
+                Ok(b) => b,
+                Err(_) => continue,
+            };
+            n_pairs += 1;
+            let step = format!("pair:{ia}:{ib}");
+            rep.check(ia, &format!("{step}:cmp"), a.cmp(&b) == sa.cmp(sb), json!(format!("{:?}", sa.cmp(sb))),
+                      json!(format!("{:?}", a.cmp(&b))));
+            rep.check(ia, &format!("{step}:partial_cmp"), a.partial_cmp(&b) == sa.partial_cmp(sb),
+                      json!(format!("{:?}", sa.partial_cmp(sb))), json!(format!("{:?}", a.partial_cmp(&b))));
+            rep.check(ia, &format!("{step}:eq"), (a == b) == (sa == sb) && (a == *sb) == (sa == sb),
+                      json!(sa == sb), json!(a == b));
+            rep.check(ia, &format!("{step}:hash"), (hash_of(&a) == hash_of(&b)) == (hash_of(sa) == hash_of(sb)),
+                      json!(hash_of(sa) == hash_of(sb)), json!(hash_of(&a) == hash_of(&b)));
+        }
+    }
+    // a map keyed by ByteString is addressable by &str (Borrow<str> + Hash + Eq contract)
+    if nv > 0 {
+        let mut m: HashMap<ByteString, usize> = HashMap::new();
+        for &ia in valid_idx.iter().take(4096) {
+            if let Ok(a) = ByteString::try_from(&vecs[ia].s[..]) {
+                m.insert(a, ia);
+            }
+        }
+        for &ia in valid_idx.iter().take(4096) {
+            let sa = std::str::from_utf8(&vecs[ia].s).unwrap();
+            rep.check(ia, "map_lookup_by_str", m.get(sa) == Some(&ia), json!(ia), json!(m.get(sa)));
+        }
+    }
+    trace.finish();
+
+    println!(
+        "{}",
+        json!({
+            "runs": n, "steps": rep.steps, "mismatches": rep.mismatches, "first_mismatches": rep.first,
+            "flagged_runs": rep.flagged_runs.len(),
+            "oracle_disagreements": rep.oracle_disagreements, "oracle_first": rep.oracle_first,
+            "valid_vectors": n_valid, "valid_multibyte": n_multibyte_valid,
+            "ctor_accepts": n_accepts, "ctor_rejects": n_rejects,
+            "split_calls": n_split_calls, "split_panics": n_split_panics, "slice_refs": n_slice_refs,
+            "foreign_slice_ref_panics": n_foreign_panics, "table_miss": n_table_miss,
+            "pairs": n_pairs, "traced": traced,
+        })
+    );
+}
